@@ -15,6 +15,7 @@ def check(ctx, prog):
     engine.rule_queue_drain(ctx, prog)
     engine.rule_writeback(ctx, prog, want=("R-EVENTS-EXACT", "R-WRITEBACK-MONO", "R-ANNOUNCE"))
     engine.rule_wakeup(ctx, prog)
+    engine.rule_queue_writers(ctx, prog, thorough=ctx.tier == "thorough")
     model.rule_trigger_join(ctx, prog)
     optimize.rule_offset_primitives(ctx, prog)
     shaving.rule_shave_bound(ctx, prog)
